@@ -336,3 +336,274 @@ Proof.
     + intros Hzt. rewrite <- Ea in Hzt. subst a.
       destruct Hact4 as [->|[Hf _]]; [|congruence]. rewrite Ha3. apply nth_upd_same; auto.
 Qed.
+
+(* ---------- Sampler::_new ---------- *)
+
+Lemma sumN_const c n : sumN (fun _ => c) n = c * N.of_nat n.
+Proof. induction n as [|n IH]; simpl sumN; [lia|]. rewrite IH. lia. Qed.
+
+Lemma count_true_repeat_true n : count_true (repeat true n) = N.of_nat n.
+Proof.
+  unfold count_true. rewrite repeat_length.
+  rewrite (sumN_ext _ (fun _ => 1)); [rewrite sumN_const; lia|].
+  intros i Hi. rewrite nth_repeat_lt by auto. reflexivity.
+Qed.
+
+Lemma count_true_repeat_false n : count_true (repeat false n) = 0.
+Proof.
+  unfold count_true. rewrite repeat_length. apply sumN_zero.
+  intros i Hi. rewrite nth_repeat_lt by auto. reflexivity.
+Qed.
+
+Lemma existsb_false_Forall {A} (f : A -> bool) l :
+  existsb f l = false -> Forall (fun x => f x = false) l.
+Proof.
+  induction l as [|a l IH]; simpl; intros H; constructor.
+  - destruct (f a); auto; discriminate.
+  - apply IH. destruct (f a); auto; discriminate.
+Qed.
+
+Lemma Forall_existsb_false {A} (f : A -> bool) l :
+  Forall (fun x => f x = false) l -> existsb f l = false.
+Proof. induction 1 as [|a l Ha _ IH]; simpl; auto. rewrite Ha, IH. reflexivity. Qed.
+
+Lemma set_seeds_ok n seeds :
+  N.of_nat n <= u32_max ->
+  forall a cnt, length a = n -> cnt = count_true a ->
+    Forall (fun i => (i < n)%nat) seeds ->
+    exists a' cnt', set_seeds a cnt seeds = Ok (a', cnt') /\ length a' = n /\ cnt' = count_true a' /\
+      (forall i, nth i a' false = (nth i a false || existsb (Nat.eqb i) seeds)%bool).
+Proof.
+  intros Hn. induction seeds as [|s seeds IH]; intros a cnt Hl Hc Hs.
+  - exists a, cnt. simpl. repeat split; auto. intros i. rewrite orb_false_r. reflexivity.
+  - inversion Hs as [|? ? Hs1 Hs2]; subst. simpl set_seeds. unfold bv_set.
+    assert (E1 : (s <? length a)%nat = true) by (apply Nat.ltb_lt; lia). rewrite E1.
+    destruct (nth s a false) eqn:Ha; cbn [rbind fst snd].
+    + destruct (IH a (count_true a) eq_refl eq_refl Hs2) as [a' [cnt' [E [Hl' [Hc' Hb]]]]].
+      exists a', cnt'. repeat split; auto. intros i. rewrite Hb. simpl existsb.
+      destruct (Nat.eqb_spec i s) as [->|]; [rewrite Ha; reflexivity|reflexivity].
+    + pose proof (count_true_flip a s ltac:(lia) true) as Hf. rewrite Ha in Hf. simpl ind in Hf.
+      pose proof (count_true_le (upd s true a)) as Hb. rewrite upd_length in Hb.
+      pose proof u32_le_usize. unfold add_usize.
+      assert (E2 : (count_true a + 1 <=? usize_max) = true) by (apply N.leb_le; lia). rewrite E2.
+      cbn [rbind fst snd].
+      destruct (IH (upd s true a) (count_true a + 1)) as [a' [cnt' [E [Hl' [Hc' Hb']]]]]; auto.
+      * rewrite upd_length. reflexivity.
+      * lia.
+      * exists a', cnt'. repeat split; auto. intros i. rewrite Hb'. simpl existsb. rewrite nth_upd.
+        rewrite (Nat.eqb_sym i s).
+        destruct (Nat.eqb_spec s i) as [<-|]; [rewrite E1, Ha; reflexivity|reflexivity].
+Qed.
+
+Lemma zero_matrix_shape W K : shape (zero_matrix W K) W K.
+Proof.
+  unfold zero_matrix, shape. split; [apply repeat_length|].
+  intros j Hj. rewrite nth_repeat_lt by auto. apply repeat_length.
+Qed.
+
+Lemma zero_matrix_cell W K j k : mcell (zero_matrix W K) j k = 0.
+Proof.
+  unfold mcell, zero_matrix.
+  destruct (Nat.ltb_spec j W).
+  - rewrite nth_repeat_lt by auto. destruct (Nat.ltb_spec k K).
+    + apply nth_repeat_lt; auto.
+    + apply nth_overflow. rewrite repeat_length. auto.
+  - rewrite (nth_overflow (repeat (repeat 0 K) W)) by (rewrite repeat_length; auto). destruct k; reflexivity.
+Qed.
+
+(* the two construction loops of _new, for any active set *)
+Section NewLoops.
+  Variable c : cfg.
+  Hypothesis Hwf : WF c.
+  Variable act : list bool.
+  Variable starts : list nat.
+  Hypothesis Hla : length act = length (cData c).
+  Hypothesis Hr : starts_in_range (cW c) (cData c) starts = true.
+
+  Lemma new_motif_loop :
+    loop (fun i mo =>
+            a <- bv_test act i ;;
+            if a then motif_window c inc_u32 (nth i (cData c) []) (nth i starts O) mo else Ok mo)
+         (seq 0 (length (cData c))) (zero_matrix (cW c) (cK c))
+    = Ok (recompute_motif (cK c) (cW c) (cData c) act starts).
+  Proof.
+    set (P := fun (t : nat) (mo : matrix) =>
+      shape mo (cW c) (cK c) /\
+      forall j k, (j < cW c)%nat -> (k < cK c)%nat ->
+        mcell mo j k = sumN (contrib_motif (cData c) act starts j k) t).
+    destruct (loop_seq_inv
+      (fun i mo => a <- bv_test act i ;;
+                   if a then motif_window c inc_u32 (nth i (cData c) []) (nth i starts O) mo else Ok mo)
+      P (length (cData c)) O (zero_matrix (cW c) (cK c))) as [mo [E [Hsh Hc]]].
+    - split; [apply zero_matrix_shape|]. intros j k _ _. apply zero_matrix_cell.
+    - intros t mo Ht [Hsh Hc]. rewrite bv_test_ok by lia. cbn [rbind].
+      destruct (nth t act false) eqn:Ha.
+      + destruct (motif_window_inc c (nth t (cData c) []) (nth t starts O) mo Hsh) as [m' [E [Hsh' Hc']]].
+        * apply (proj2 (proj1 (starts_in_range_spec _ _ _) Hr)). lia.
+        * apply Forall_nth_lt; [apply (wf_syms c Hwf)|lia].
+        * intros j k Hj Hk. rewrite Hc by auto.
+          assert (Hs : sumN (contrib_motif (cData c) act starts j k) t
+                       + win_cell (nth t (cData c) []) (nth t starts O) j k
+                       = sumN (contrib_motif (cData c) act starts j k) (S t)).
+          { simpl sumN. unfold contrib_motif at 3. rewrite Ha. reflexivity. }
+          rewrite Hs. etransitivity; [apply (sumN_mono _ (S t) (length (cData c))); lia|].
+          etransitivity; [apply spec_motif_le|apply (wf_n c Hwf)].
+        * exists m'. split; auto. split; auto. intros j k Hj Hk. rewrite Hc', Hc by auto.
+          simpl sumN. unfold contrib_motif at 3. rewrite Ha. reflexivity.
+      + exists mo. split; auto. split; auto. intros j k Hj Hk. rewrite Hc by auto.
+        simpl sumN. unfold contrib_motif at 3. rewrite Ha. lia.
+    - rewrite E. f_equal. rewrite recompute_motif_mtab. apply mtab_ext_eq; auto.
+  Qed.
+
+  Lemma new_bg_loop :
+    loop (fun i bg =>
+            a <- bv_test act i ;;
+            if a then
+              b1 <- bg_counts c add_usize (nth i (cCounts c) []) bg ;;
+              bg_window c dec1 (nth i (cData c) []) (nth i starts O) b1
+            else Ok bg)
+         (seq 0 (length (cData c))) (repeat 0 (cK c))
+    = Ok (recompute_bg (cK c) (cW c) (cData c) act starts).
+  Proof.
+    set (P := fun (t : nat) (bg : list N) =>
+      length bg = cK c /\
+      forall k, (k < cK c)%nat -> nth k bg 0 = sumN (contrib_bg (cW c) (cData c) act starts k) t).
+    destruct (loop_seq_inv
+      (fun i bg => a <- bv_test act i ;;
+                   if a then
+                     b1 <- bg_counts c add_usize (nth i (cCounts c) []) bg ;;
+                     bg_window c dec1 (nth i (cData c) []) (nth i starts O) b1
+                   else Ok bg)
+      P (length (cData c)) O (repeat 0 (cK c))) as [bg [E [Hl Hc]]].
+    - split; [apply repeat_length|]. intros k Hk. apply nth_repeat_lt; auto.
+    - intros t bg Ht [Hl Hc]. rewrite bv_test_ok by lia. cbn [rbind].
+      assert (Htn : (t < length (cData c))%nat) by lia.
+      destruct (nth t act false) eqn:Ha.
+      + rewrite (cnts_z c Hwf t Htn).
+        assert (Hb : forall k, (k < cK c)%nat ->
+                  nth k bg 0 + count_sym (nth t (cData c) []) k <= usize_max).
+        { intros k Hk. rewrite Hc by auto.
+          etransitivity; [|apply (tot_le_usize c Hwf k)]. unfold tot.
+          etransitivity; [|apply (sumN_mono _ (S t) (length (cData c))); lia].
+          simpl sumN. apply N.add_le_mono_r. apply sumN_le. intros i _.
+          pose proof (contrib_bg_le (cW c) (cData c) act starts k i). destruct (nth i act false); lia. }
+        destruct (bg_counts_add c (count_symbols (cK c) (nth t (cData c) [])) bg Hl (count_symbols_length _ _))
+          as [b1 [E1 [Hl1 Hc1]]].
+        { intros k Hk. rewrite nth_count_symbols by auto. apply Hb; auto. }
+        rewrite E1. cbn [rbind].
+        destruct (bg_window_dec c (nth t (cData c) []) (nth t starts O) b1 Hl1) as [b2 [E2 [Hl2 Hc2]]].
+        * apply (proj2 (proj1 (starts_in_range_spec _ _ _) Hr)). lia.
+        * apply Forall_nth_lt; [apply (wf_syms c Hwf)|lia].
+        * intros k Hk. rewrite Hc1, nth_count_symbols by auto.
+          pose proof (win_count_le (cW c) (nth t (cData c) []) (nth t starts O) k). lia.
+        * exists b2. split; auto. split; auto. intros k Hk.
+          rewrite Hc2, Hc1, nth_count_symbols, Hc by auto.
+          simpl sumN. unfold contrib_bg at 3. rewrite Ha.
+          pose proof (win_count_le (cW c) (nth t (cData c) []) (nth t starts O) k). lia.
+      + exists bg. split; auto. split; auto. intros k Hk. rewrite Hc by auto.
+        simpl sumN. unfold contrib_bg at 3. rewrite Ha. lia.
+    - rewrite E. f_equal. rewrite recompute_bg_vtab. apply vtab_ext_eq; auto.
+  Qed.
+End NewLoops.
+
+Lemma new_build_ok c act cnt starts :
+  WF c -> length act = length (cData c) -> starts_in_range (cW c) (cData c) starts = true ->
+  new_build c act cnt starts
+  = Ok (mkState act cnt starts (recompute_motif (cK c) (cW c) (cData c) act starts)
+                (recompute_bg (cK c) (cW c) (cData c) act starts) 0 0 false).
+Proof.
+  intros Hwf Hla Hr. unfold new_build.
+  rewrite (new_motif_loop c Hwf act starts Hla Hr). cbn [rbind].
+  rewrite (new_bg_loop c Hwf act starts Hla Hr). cbn [rbind]. reflexivity.
+Qed.
+
+Lemma nodupb_spec l : nodupb l = true <-> NoDup l.
+Proof.
+  induction l as [|a l IH]; simpl.
+  - split; auto. constructor.
+  - rewrite andb_true_iff, negb_true_iff, IH. split.
+    + intros [H1 H2]. constructor; auto. intros Hin.
+      assert (existsb (Nat.eqb a) l = true) by (apply existsb_exists; exists a; split; auto; apply Nat.eqb_refl).
+      congruence.
+    + intros H. inversion H; subst. split; auto.
+      destruct (existsb (Nat.eqb a) l) eqn:E; auto.
+      apply existsb_exists in E. destruct E as [x [Hx Ex]]. apply Nat.eqb_eq in Ex. subst. contradiction.
+Qed.
+
+(* premises on the data set: symbols inside the alphabet (a Rust type invariant), every
+   sequence at least as long as the width, the counters cannot overflow *)
+Definition data_ok (K W : nat) (data : list seqt) : Prop :=
+  Forall (Forall (fun a => (a < K)%nat)) data /\
+  Forall (fun s => (W <= length s)%nat) data /\
+  N.of_nat (length data) <= u32_max /\
+  total_len data <= usize_max.
+
+(* what rand::seq::index::sample(rng, n, initial.min(n)) can return *)
+Definition seeds_ok (n : nat) (initial : N) (seeds0 : list nat) : Prop :=
+  NoDup seeds0 /\ Forall (fun i => (i < n)%nat) seeds0 /\
+  N.of_nat (length seeds0) = N.min initial (N.of_nat n).
+
+Definition init_active (m : smode) (n : nat) (seeds0 : list nat) (i : nat) : bool :=
+  match m with
+  | Oops => (i <? n)%nat
+  | Zoops => existsb (Nat.eqb i) seeds0
+  end.
+
+Theorem new_ok K W data wraps m initial inertia patience starts0 seeds0 :
+  data_ok K W data ->
+  Forall (fun wr => (W <= wr)%nat) wraps ->
+  starts_in_range W data starts0 = true ->
+  (m = Zoops -> seeds_ok (length data) initial seeds0) ->
+  exists c st0,
+    new_ K W data wraps m initial inertia patience starts0 seeds0 = Ok (c, st0) /\
+    WF c /\ Inv c st0 /\
+    c = mkCfg K W data (sampler_data_counts K data) m
+              (match m with Zoops => seeds0 | Oops => [] end) inertia patience /\
+    st_starts st0 = starts0 /\ st_step st0 = 0 /\ st_conv st0 = false /\
+    (forall i, nth i (st_active st0) false = init_active m (length data) seeds0 i).
+Proof.
+  intros [Hsy [Hlen [Hn Htot]]] Hwr Hr Hseeds. unfold new_.
+  rewrite (Forall_existsb_false (fun wr => (wr <? W)%nat) wraps)
+    by (eapply Forall_impl; [|exact Hwr]; intros a Ha; apply Nat.ltb_ge; exact Ha).
+  rewrite (Forall_existsb_false (fun s => (length s <? W)%nat) data)
+    by (eapply Forall_impl; [|exact Hlen]; intros a Ha; apply Nat.ltb_ge; exact Ha).
+  rewrite Hr. cbn [negb].
+  assert (Hwf : forall seed, WF (mkCfg K W data (sampler_data_counts K data) m seed inertia patience)).
+  { intros seed. constructor; cbn [cK cW cData cCounts]; auto. }
+  destruct m.
+  - cbn [rbind fst snd].
+    rewrite (new_build_ok _ (repeat true (length data)) (N.of_nat (length data)) starts0 (Hwf []))
+      by (cbn [cData cW]; auto using repeat_length).
+    cbn [rbind]. eexists. eexists. split; [reflexivity|]. split; [apply Hwf|].
+    assert (Hact : forall i, nth i (repeat true (length data)) false = (i <? length data)%nat).
+    { intros i. destruct (Nat.ltb_spec i (length data)).
+      - apply nth_repeat_lt; auto.
+      - apply nth_overflow. rewrite repeat_length. auto. }
+    split; [|repeat split; auto].
+    constructor; cbn [st_last st_step st_active cMode cData].
+    + constructor; cbn [st_active st_starts st_motif st_bg st_count cData cW cK]; auto.
+      * apply repeat_length.
+      * symmetry. apply count_true_repeat_true.
+    + lia.
+    + intros _ i Hi. rewrite Hact. apply Nat.ltb_lt. auto.
+  - destruct (Hseeds eq_refl) as [Hnd [Hlt Hcnt]].
+    rewrite (proj2 (nodupb_spec seeds0) Hnd).
+    assert (E1 : forallb (fun i => (i <? length data)%nat) seeds0 = true).
+    { apply forallb_forall. intros x Hx. apply Nat.ltb_lt. rewrite Forall_forall in Hlt. auto. }
+    rewrite E1. rewrite (proj2 (N.eqb_eq _ _) Hcnt). cbn [andb].
+    destruct (set_seeds_ok (length data) seeds0 Hn (repeat false (length data)) 0)
+      as [a' [cnt' [E [Hl' [Hc' Hb]]]]]; auto using repeat_length.
+    { symmetry. apply count_true_repeat_false. }
+    rewrite E. cbn [rbind fst snd].
+    rewrite (new_build_ok _ a' cnt' starts0 (Hwf seeds0)) by (cbn [cData cW]; auto).
+    cbn [rbind]. eexists. eexists. split; [reflexivity|]. split; [apply Hwf|].
+    split; [|repeat split; auto].
+    + constructor; cbn [st_last st_step st_active cMode cData].
+      * constructor; cbn [st_active st_starts st_motif st_bg st_count cData cW cK]; auto.
+      * lia.
+      * discriminate.
+    + intros i. rewrite Hb. cbn [init_active].
+      destruct (Nat.ltb_spec i (length data)).
+      * rewrite nth_repeat_lt by auto. reflexivity.
+      * rewrite nth_overflow by (rewrite repeat_length; auto). reflexivity.
+Qed.
